@@ -134,15 +134,21 @@ STATE_PREFIXES = {
 
 
 def pending(st):
-    """in session, or closed with a reconnect scheduled (C02a read off the abstract state)"""
-    state, timers, conns, auto = st[0], st[6], st[7], st[4]
+    """the invariant C02_reconnect_pending / C10_in_session_or_reconnect_scheduled read off the abstract state:
+    in session on a connected tracked transport; or (operator has not stopped the peer) Idle with the restart
+    timer armed or the close of the tracked connection in progress; or Connect with the connect-retry timer armed;
+    never Active"""
+    state, timers, conns, auto, proto = st[0], st[6], st[7], st[4], st[5]
+    tracked = conns[proto[0]] if proto and proto[0] < len(conns) else None
     if state in (4, 5, 6):
-        return True
+        return tracked is not None and tracked[0] == 1
+    if state == 3:
+        return False
     if not auto:
         return True
-    if timers[0][0] or timers[4][0]:
-        return True
-    return any(c[0] == 0 or (c[0] == 1 and c[2]) for c in conns)
+    if state == 1:
+        return bool(timers[4][0]) or (tracked is not None and tracked[0] == 1 and tracked[2])
+    return bool(timers[0][0])
 
 
 def run(ctx):
